@@ -593,10 +593,99 @@ fn run_seq(t: &[&str]) -> Option<(String, Vec<String>)> {
     }
 }
 
+/// `P <w> <h> <k> <filter> <seed>`: the chain is started in the middle. An R8G8B8A8 texture with a full chain;
+/// levels 0..k-1 are written by hand with generation off (each a constant image of its own colour), then
+/// generation is switched on and level k is written: the encoder must generate exactly the levels k+1.. behind it
+/// ("exactly the declared levels with sizes max(1, dim >> level)"), in the colour of level k.
+fn run_pseq(t: &[&str]) -> Option<(String, Vec<String>)> {
+    if t.len() != 6 {
+        return None;
+    }
+    let (w, h, k): (u32, u32, u32) = (t[1].parse().ok()?, t[2].parse().ok()?, t[3].parse().ok()?);
+    let filter = *FILTERS.iter().find(|f| filter_name(**f) == t[4])?;
+    let seed: u64 = t[5].parse().ok()?;
+    let mips = 32 - w.max(h).leading_zeros();
+    if w == 0 || h == 0 || w > 256 || h > 256 || k >= mips {
+        return None;
+    }
+    let dim = |d: u32, l: u32| (d >> l).max(1);
+    let colour = |l: u32| -> [u8; 4] { [(40 + 37 * l + seed as u32 % 7) as u8, (200u32.wrapping_sub(23 * l)) as u8, (l * 11 + 3) as u8, 255] };
+    let mut oracle = vec![];
+    let mut file: Vec<u8> = Vec::new();
+    let header = dds::header::Header::new_image(w, h, Format::R8G8B8A8_UNORM).with_mipmaps();
+    let gen_bytes;
+    {
+        let mut enc = match Encoder::new(&mut file, Format::R8G8B8A8_UNORM, &header) {
+            Ok(e) => e,
+            Err(e) => return Some((format!("err new {e:?}"), vec![])),
+        };
+        enc.mipmaps.resize_filter = filter;
+        enc.options.parallel = seed % 2 == 0;
+        enc.mipmaps.generate = false;
+        for l in 0..=k {
+            if l == k {
+                enc.mipmaps.generate = true;
+            }
+            let (lw, lh) = (dim(w, l), dim(h, l));
+            let data: Vec<u8> = (0..lw as usize * lh as usize).flat_map(|_| colour(l)).collect();
+            let view = ImageView::new(&data[..], Size::new(lw, lh), ColorFormat::RGBA_U8)?;
+            if let Err(e) = enc.write_surface(view) {
+                oracle.push(format!("write of level {l} failed: {e:?}"));
+                return Some(("err write".into(), oracle));
+            }
+        }
+        let done = enc.finish().is_ok();
+        gen_bytes = done;
+    }
+    // independent expectation in u128
+    let hdr = 4 + header.byte_len();
+    let level_bytes = |l: u32| dim(w, l) as u128 * dim(h, l) as u128 * 4;
+    let before: u128 = (0..k).map(level_bytes).sum();
+    let total: u128 = (0..mips).map(level_bytes).sum();
+    let written_by_call = file.len() as u128 - hdr as u128 - before.min(file.len() as u128 - hdr as u128);
+    if !gen_bytes {
+        oracle.push("finish() refuses the file although generation was on for the last hand-written level".into());
+    }
+    if file.len() as u128 != hdr as u128 + total {
+        oracle.push(format!(
+            "chain started at level {k}: the file has {} data bytes, the declared levels need {total} (levels must have the sizes max(1, dim >> level))",
+            file.len() - hdr
+        ));
+    } else {
+        // re-open: every level has its declared size and, from level k on, the colour of level k (a constant image
+        // yields mipmaps of that colour); the hand-written levels keep their own
+        let mut dec = match Decoder::new(std::io::Cursor::new(&file[..])) {
+            Ok(d) => d,
+            Err(e) => {
+                oracle.push(format!("the finished file does not open: {e:?}"));
+                return Some(("err reopen".into(), oracle));
+            }
+        };
+        for l in 0..mips {
+            let (lw, lh) = (dim(w, l), dim(h, l));
+            let mut buf = vec![0u8; lw as usize * lh as usize * 4];
+            let view = ImageViewMut::new(&mut buf[..], Size::new(lw, lh), ColorFormat::RGBA_U8)?;
+            if let Err(e) = dec.read_surface(view) {
+                oracle.push(format!("level {l} ({lw}x{lh}) does not decode: {e:?}"));
+                break;
+            }
+            let want = colour(l.min(k));
+            if let Some(px) = buf.chunks(4).find(|px| *px != want) {
+                oracle.push(format!("level {l}: pixel {px:?}, expected the constant colour {want:?} of level {}", l.min(k)));
+                break;
+            }
+        }
+    }
+    Some((format!("pseq ok gen={written_by_call} done={}", gen_bytes as u8), oracle))
+}
+
 pub fn run(line: &str) -> Option<(String, Vec<String>)> {
     let t: Vec<&str> = line.split_whitespace().collect();
     if t.first() == Some(&"S") {
         return run_seq(&t);
+    }
+    if t.first() == Some(&"P") {
+        return run_pseq(&t);
     }
     let c = parse(line)?;
     let img = make_image(&c)?;
@@ -998,6 +1087,21 @@ pub fn gen(seed: u64, thorough: bool) -> Vec<String> {
         let f = *rng.pick(&[ResizeFilter::Box, ResizeFilter::Triangle, ResizeFilter::Mitchell, ResizeFilter::Nearest]);
         let var = VARIANTS[1 + i % 4];
         out.push(format!("S {w} {} {var} {}", filter_name(f), rng.next() >> 16));
+    }
+
+    // ---- A4. the chain is started in the middle (levels 0..k-1 by hand, generation on for level k)
+    for (w, h) in [(16u32, 16u32), (13, 5), (1, 9), (32, 4), (7, 7), (64, 64), (2, 2), (100, 3)] {
+        let mips = 32 - w.max(h).leading_zeros();
+        for k in 0..mips {
+            let f = FILTERS[(k as usize + w as usize) % FILTERS.len()];
+            out.push(format!("P {w} {h} {k} {} {}", filter_name(f), rng.next() >> 16));
+        }
+    }
+    for _ in 0..if thorough { 600 } else { 60 } {
+        let (w, h) = (rng.range(1, 130) as u32, rng.range(1, 130) as u32);
+        let mips = 32 - w.max(h).leading_zeros();
+        let k = rng.below(mips as u64);
+        out.push(format!("P {w} {h} {k} {} {}", filter_name(*rng.pick(&FILTERS)), rng.next() >> 16));
     }
 
     // ---- B. size sweep
